@@ -1,42 +1,72 @@
 (** C06 - tree coders and [run_C06] (trusted only by the correspondence).
 
-    case = (tag payload...) :
-      (1 (cell...) trailer)                       StrList
-      (2 ((cell...)...) trailer)                  Block
-      (11 (ty u)...)                              packfile object headers
+    case = (tag payload...) ; byte strings are nodes of byte leaves:
+      (1 (cell...) trailer)                          StrList
+      (2 ((cell...)...) trailer)                     Block
+      (3 (u32...) trailer)   (4 (u64...) trailer)    UintList / FloatList
+      (5 commit trailer)      commit = (table name email ((sg abs) (sg abs)) message (parent...))
+                              time = (unix seconds, zone minutes) as signed numbers (sg 1 = negative)
+      (6 table trailer)       table = ((column...) (pk...) rows (block...) (index...))
+      (7 blockindex trailer)  blockindex = (offsets (row...))
+      (8 profile trailer)     profile = (version rowsCount (column...)),
+                              column = (name naCount min max mean median std pct minLen maxLen avgLen top)
+                              optional = () | (x) ; pct = (u64...) ; top = ((value count)...)
+      (9 string trailer)                             pkt-line
+      (10 ((ty bytes)...))                           packfile
+      (11 (ty u)...)                                 packfile object headers
+      (12 (op...))                                   store: op = (kind content) kind 1 block 2 block index
+                                                     3 table 4 commit | (5 tablecontent content) table index
+                                                     | (6 tablecontent content) table profile
+      (13 fmt bytes)                                 decode arbitrary bytes with the reader of format fmt (1..11)
 
     observation of a round-trip case ([obs_rt]):
       (st)                                        the encoder refused: st = 1 error, 2 panic
       (0 enc (1))                                 encoded, decoding enc++trailer failed
-      (0 enc (0 value rest (0 reenc)))            decoded value (as in the case), bytes left in
-                                                  the reader, re-encoding of the decoded value
-    StrList adds the result of the slice decoder:  (obs_rt (cell...)) .
-    headers: ((enc (ty u rest))...)  with [decode_len (enc ++ [0xAA])]. *)
+      (0 enc (0 value rest R))                    decoded value (coded as in the case), bytes left in the
+                                                  reader, R = (st) | (0 reenc) re-encoding of the decoded value
+    StrList adds the result of the slice decoder:  (obs_rt ((cell...))?) .
+    packfile value = (version (ty bytes)...).
+    headers: ((enc (ty u rest))...)  with [decode_len (enc ++ [0xAA])].
+    store: (((prefix ident value)...) (get...)) entries sorted by prefix++ident, where ident is the
+      CONTENT whose hash is the key suffix (the model runs with H = identity, Go maps each
+      hash back to the content it came from) and value is the stored value, decompressed for
+      blocks and block indices; get = (0 object) | (1), one per op, through Get<Kind>.
+    decode-only: (1) | (0 value rest R). *)
 From W.lib Require Import Tree Bytes.
-From W.model Require Import CodecBase CodecStrList CodecPackfile.
+From W.model Require Import CodecBase CodecStrList CodecPackfile CodecObjline CodecCommit
+     CodecTable CodecProfile CodecStore.
 Local Open Scope N_scope.
+
+Definition obs_reenc {X} (refusal : N) (enc : X -> option bytes) (y : X) : tree :=
+  match enc y with
+  | None => Node [Leaf refusal]
+  | Some b2 => Node [Leaf 0; t_bytes b2]
+  end.
+
+Definition obs_dec {X} (refusal : N) (enc : X -> option bytes)
+           (dec : bytes -> option (X * bytes)) (tx : X -> tree) (b : bytes) : tree :=
+  match dec b with
+  | None => Node [Leaf 1]
+  | Some (y, rest) => Node [Leaf 0; tx y; t_bytes rest; obs_reenc refusal enc y]
+  end.
 
 Definition obs_rt {X} (refusal : N) (enc : X -> option bytes)
            (dec : bytes -> option (X * bytes)) (tx : X -> tree) (x : X) (trailer : bytes) : tree :=
   match enc x with
   | None => Node [Leaf refusal]
-  | Some b =>
-      Node [Leaf 0; t_bytes b;
-            match dec (b ++ trailer) with
-            | None => Node [Leaf 1]
-            | Some (y, rest) =>
-                Node [Leaf 0; tx y; t_bytes rest;
-                      match enc y with
-                      | None => Node [Leaf refusal]
-                      | Some b2 => Node [Leaf 0; t_bytes b2]
-                      end]
-            end]
+  | Some b => Node [Leaf 0; t_bytes b; obs_dec refusal enc dec tx (b ++ trailer)]
   end.
 
 Definition t_cells (sl : list bytes) : tree := t_list t_bytes sl.
 Definition d_cells (t : tree) : list bytes := d_list d_bytes t.
 Definition t_rows (r : list (list bytes)) : tree := t_list t_cells r.
 Definition d_rows (t : tree) : list (list bytes) := d_list d_cells t.
+Definition t_nums (l : list N) : tree := t_list Leaf l.
+Definition d_nums (t : tree) : list N := d_list d_N t.
+Definition t_objs (l : list (N * bytes)) : tree :=
+  t_list (fun o => Node [Leaf (fst o); t_bytes (snd o)]) l.
+Definition d_objs (t : tree) : list (N * bytes) :=
+  d_list (fun o => (d_N (d_nth 0 o), d_bytes (d_nth 1 o))) t.
 
 Definition run_strlist (c : tree) : tree :=
   let sl := d_cells (d_nth 1 c) in
@@ -46,26 +76,116 @@ Definition run_strlist (c : tree) : tree :=
         | Some b => t_opt t_cells (decode_strlist_bytes b)
         end].
 
-Definition run_block (c : tree) : tree :=
-  obs_rt 2 encode_block decode_block t_rows (d_rows (d_nth 1 c)) (d_bytes (d_nth 2 c)).
+(* packfile: the decoded value also carries the version *)
+Definition dec_packfile_obs (b : bytes) : tree :=
+  match decode_packfile b with
+  | None => Node [Leaf 1]
+  | Some ((v, objs), rest) =>
+      Node [Leaf 0; Node (Leaf v :: match t_objs objs with Node l => l | Leaf _ => [] end);
+            t_bytes rest; obs_reenc 2 encode_packfile objs]
+  end.
+Definition run_packfile (c : tree) : tree :=
+  match encode_packfile (d_objs (d_nth 1 c)) with
+  | None => Node [Leaf 2]
+  | Some b => Node [Leaf 0; t_bytes b; dec_packfile_obs b]
+  end.
 
+Definition dec_header_obs (b : bytes) : tree :=
+  match decode_len b with
+  | None => Node []
+  | Some (ty, u, rest) => Node [Leaf ty; Leaf u; t_bytes rest]
+  end.
 Definition run_header1 (p : tree) : tree :=
   let e := encode_len (d_N (d_nth 0 p)) (d_N (d_nth 1 p)) in
-  Node [t_bytes e;
-        match decode_len (e ++ [170]) with
-        | None => Node []
-        | Some (ty, u, rest) => Node [Leaf ty; Leaf u; t_bytes rest]
-        end].
+  Node [t_bytes e; dec_header_obs (e ++ [170])].
 Definition run_header (c : tree) : tree :=
   match c with
   | Node (_ :: ps) => Node (map run_header1 ps)
   | _ => Node []
   end.
 
+(** store *)
+Definition idH (b : bytes) : bytes := b.
+Definition d_sop (t : tree) : sop :=
+  let c1 := d_bytes (d_nth 1 t) in
+  match d_N (d_nth 0 t) with
+  | 1 => SBlock c1
+  | 2 => SBlockIndex c1
+  | 3 => STable c1
+  | 4 => SCommit c1
+  | 5 => STableIndex c1 (d_bytes (d_nth 2 t))
+  | _ => STableProfile c1 (d_bytes (d_nth 2 t))
+  end.
+
+Fixpoint split_key (ps : list bytes) (k : bytes) : bytes * bytes :=
+  match ps with
+  | [] => ([], k)
+  | p :: ps' => if is_prefix p k then (p, skipn (length p) k) else split_key ps' k
+  end.
+
+Fixpoint ins_entry (e : bytes * bytes) (l : list (bytes * bytes)) : list (bytes * bytes) :=
+  match l with
+  | [] => [e]
+  | x :: l' => if bleb (fst e) (fst x) then e :: l else x :: ins_entry e l'
+  end.
+Definition sort_entries (l : list (bytes * bytes)) := fold_right ins_entry [] l.
+
+Definition t_entry (e : bytes * bytes) : tree :=
+  let (p, ident) := split_key prefixes (fst e) in
+  Node [t_bytes p; t_bytes ident; t_bytes (snd e)].
+
+Definition t_res {X} (tx : X -> tree) (o : option X) : tree :=
+  match o with Some x => Node [Leaf 0; tx x] | None => Node [Leaf 1] end.
+
+Definition run_get (s : store) (o : sop) : tree :=
+  match o with
+  | SBlock c => t_res t_rows (get_block Some s (idH c))
+  | SBlockIndex c => t_res t_blockindex (get_blockindex Some s (idH c))
+  | STable c => t_res t_table (get_table s (idH c))
+  | SCommit c => t_res t_commit (get_commit s (idH c))
+  | STableIndex t _ => t_res t_rows (get_tableindex s (idH t))
+  | STableProfile t _ => t_res t_profile (get_tableprofile s (idH t))
+  end.
+
+Definition run_store (c : tree) : tree :=
+  let ops := d_list d_sop (d_nth 1 c) in
+  let s := apply_sops idH idH [] ops in
+  Node [t_list t_entry (sort_entries s); t_list (run_get s) ops].
+
+(** decode-only *)
+Definition dec_strict_time := false.
+Definition run_decode (c : tree) : tree :=
+  let b := d_bytes (d_nth 2 c) in
+  match d_N (d_nth 1 c) with
+  | 1 => obs_dec 2 encode_strlist decode_strlist t_cells b
+  | 2 => obs_dec 2 encode_block decode_block t_rows b
+  | 3 => obs_dec 2 encode_uintlist decode_uintlist t_nums b
+  | 4 => obs_dec 2 encode_floatlist decode_floatlist t_nums b
+  | 5 => obs_dec 1 encode_commit decode_commit t_commit b
+  | 6 => obs_dec 2 encode_table decode_table t_table b
+  | 7 => obs_dec 2 encode_blockindex decode_blockindex t_blockindex b
+  | 8 => obs_dec 1 encode_profile decode_profile t_profile b
+  | 9 => obs_dec 1 encode_pktline decode_pktline t_bytes b
+  | 10 => dec_packfile_obs b
+  | 11 => dec_header_obs b
+  | _ => Node [Leaf 98]
+  end.
+
 Definition run_C06 (c : tree) : tree :=
+  let tr := d_bytes (d_nth 2 c) in
   match d_N (d_nth 0 c) with
   | 1 => run_strlist c
-  | 2 => run_block c
+  | 2 => obs_rt 2 encode_block decode_block t_rows (d_rows (d_nth 1 c)) tr
+  | 3 => obs_rt 2 encode_uintlist decode_uintlist t_nums (d_nums (d_nth 1 c)) tr
+  | 4 => obs_rt 2 encode_floatlist decode_floatlist t_nums (d_nums (d_nth 1 c)) tr
+  | 5 => obs_rt 1 encode_commit decode_commit t_commit (d_commit (d_nth 1 c)) tr
+  | 6 => obs_rt 2 encode_table decode_table t_table (d_table (d_nth 1 c)) tr
+  | 7 => obs_rt 2 encode_blockindex decode_blockindex t_blockindex (d_blockindex (d_nth 1 c)) tr
+  | 8 => obs_rt 1 encode_profile decode_profile t_profile (d_profile (d_nth 1 c)) tr
+  | 9 => obs_rt 1 encode_pktline decode_pktline t_bytes (d_bytes (d_nth 1 c)) tr
+  | 10 => run_packfile c
   | 11 => run_header c
+  | 12 => run_store c
+  | 13 => run_decode c
   | _ => Node [Leaf 98]
   end.
